@@ -35,6 +35,10 @@ def text(i) -> Dict[str, Any]:
     return {"t": "text", "id": f"t{i}"}
 
 
+def no_assets() -> Dict[str, Any]:
+    return {"js": "", "css": "", "mjs": [], "mcss": [], "base": 0, "ext": True}
+
+
 def datadef(x, k, v="", a="", dflt="") -> Dict[str, Any]:
     return {"x": x, "k": k, "v": v, "a": a, "dflt": dflt}
 
@@ -100,7 +104,7 @@ class Gen:
                         data.append(datadef("inj_" + key, kind, a=key, dflt=dflt))
             if self.elems:
                 data.append(datadef("cid", "id"))
-            comps.append({"data": data, "tpl": None})
+            comps.append({"data": data, "tpl": None, "assets": no_assets()})
         for i in range(n, 0, -1):
             comps[i - 1]["tpl"] = self.nodes(lex=i, depth=self.depth, in_fill=None, top=True)
             if self.elems:
@@ -410,9 +414,28 @@ def make_component(prog, idx: int, tag: str, log: Optional[list] = None, extra: 
 
     attrs: Dict[str, Any] = {"template": "{% load lib_" + prog["mode"] + " vf_tags %}" + src,
                              "get_context_data": get_context_data}
+    a = spec.get("assets") or no_assets()
+    bases = (Component,)
+    if a["base"]:
+        bases = (prog["_classes"][a["base"] - 1],)
+    if a["js"] != "" or a["base"]:
+        attrs["js"] = a["js"] if a["js"] != "" else " "
+    if a["css"] != "" or a["base"]:
+        attrs["css"] = a["css"] if a["css"] != "" else " "
+    if a["mjs"] or a["mcss"] or not a["ext"] or a.get("media_always"):
+        css = a["mcss"]
+        if a.get("cssdict"):
+            css = {"all": a["mcss"][:1], "print": a["mcss"][1:]} if a["mcss"] else {}
+        md: Dict[str, Any] = {"extend": a["ext"]}
+        if a["mjs"]:
+            md["js"] = list(a["mjs"])
+        if css:
+            md["css"] = css
+        attrs["Media"] = type("Media", (), md)
     if extra:
         attrs.update(extra)
-    return type(f"VfC{idx}", (Component,), attrs)
+    name = {"ascii": f"VfC{idx}", "under": f"_vf_{idx}_c", "uni": f"VfTabl\u00e9{idx}"}[a.get("name", "ascii")]
+    return type(name, bases, attrs)
 
 
 def install(prog, log: Optional[list] = None, extra=None, dyn: bool = False, probes: bool = False):
@@ -420,6 +443,7 @@ def install(prog, log: Optional[list] = None, extra=None, dyn: bool = False, pro
     reg, _ = registry(prog["mode"])
     tag = "c_" + prog["mode"]
     classes = []
+    prog["_classes"] = classes
     for i in range(1, len(prog["comps"]) + 1):
         name = f"{prog['mode'][0]}c{i}"
         if name in reg.all():
@@ -427,6 +451,7 @@ def install(prog, log: Optional[list] = None, extra=None, dyn: bool = False, pro
         cls = make_component(prog, i, tag, log, (extra or {}).get(i), dyn, probes)
         reg.register(name, cls)
         classes.append(cls)
+    prog.pop("_classes", None)
     return classes
 
 
